@@ -370,6 +370,7 @@ def oracle_avl(params, ops, outs):
     mode, withfree = params[0], params[1]
     ck = []            # ascending class keys
     items = []         # "key.tag" per class key
+    det = []           # items of the node objects the caller keeps (unlinked, not inserted again)
     freed = 0
     for n, (op, (j, info)) in enumerate(zip(ops, outs)):
         o = op[0]
@@ -429,6 +430,34 @@ def oracle_avl(params, ops, outs):
             freed += len(ck)
             ck, items = [], []
             need(j[1] == "0", "op %d: avl_count %s after avl_free_nodes" % (n, j[1]))
+        elif o == "y":
+            ck, items = [], []                     # avl_clear_tree: the nodes are the caller's, freeitem is not called
+            need(j[1] == "0", "op %d: avl_count %s after avl_clear_tree" % (n, j[1]))
+        elif o == "U":
+            c = avl_ckey(mode, op[1])
+            i = bisect.bisect_left(ck, c)
+            if i < len(ck) and ck[i] == c:
+                need(j[1] == "1" and j[2] == items[i], "op %d: unlink of key %x reports %s, the set holds %s" % (n, op[1], j[1:3], items[i]))
+                ck.pop(i)
+                det.append(items.pop(i))
+            else:
+                need(j[1] == "0", "op %d: unlink of absent key %x found a node" % (n, op[1]))
+            need(int(j[-1], 16) == len(ck), "op %d: avl_count %s after avl_unlink_node, cardinality %d" % (n, j[-1], len(ck)))
+        elif o == "R":
+            if op[1] >= len(det):
+                need(j[1:] == ["-"], "op %d: no such kept node, got %s" % (n, j[1:]))
+            else:
+                c = avl_ckey(mode, op[2])
+                i = bisect.bisect_left(ck, c)
+                present = i < len(ck) and ck[i] == c
+                if present:
+                    det[op[1]] = "%x.%x" % (op[2], op[3])
+                else:
+                    det.pop(op[1])
+                    ck.insert(i, c)
+                    items.insert(i, "%x.%x" % (op[2], op[3]))
+                need(j[1] == str(int(not present)), "op %d: re-insertion of a node with key %x reports %s, the set says added=%d" % (n, op[2], j[1], not present))
+                need(int(j[2], 16) == len(ck), "op %d: avl_count %s after re-insertion of an unlinked node, cardinality %d" % (n, j[2], len(ck)))
     tail = outs[len(ops):]
     freed += len(ck)
     need(tail and tail[0][0] == ["Z", "%x" % (freed if withfree else 0)], "freeitem was called %s times, %d items left the tree" % (tail[0][0][1:] if tail else "?", freed))
@@ -439,6 +468,7 @@ def oracle_aseq(params, ops, outs):
     """AVL tree with caller-chosen positions: reference = a Python list"""
     withfree = params[0]
     items = []
+    det = []           # items of the node objects the caller keeps
     freed = 0
     for n, (op, (j, info)) in enumerate(zip(ops, outs)):
         o = op[0]
@@ -481,6 +511,31 @@ def oracle_aseq(params, ops, outs):
             freed += len(items)
             items = []
             need(j[1] == "0", "op %d: avl_count %s after avl_free_nodes" % (n, j[1]))
+        elif o == "y":
+            items = []
+            need(j[1] == "0", "op %d: avl_count %s after avl_clear_tree" % (n, j[1]))
+        elif o == "K":
+            u = op[1]
+            if u < len(items):
+                need(j[1] == "1" and j[2] == items[u], "op %d: avl_unlink_node(avl_at(%d)) takes out %s, item %d of the sequence is %s" % (n, u, j[1:3], u, items[u]))
+                det.append(items.pop(u))
+            else:
+                need(j[1] == "0", "op %d: unlink beyond the end found a node" % n)
+            need(int(j[-1], 16) == len(items), "op %d: avl_count %s after avl_unlink_node, length %d" % (n, j[-1], len(items)))
+        elif o in ("Q", "W"):
+            u, kk = op[1], op[2]
+            if kk >= len(det):
+                need(j[1:] == ["-"], "op %d: no such kept node, got %s" % (n, j[1:]))
+            else:
+                det.pop(kk)
+                it = "%x.%x" % (op[3], op[4])
+                if u < len(items):
+                    items.insert(u if o == "Q" else u + 1, it)
+                elif o == "Q":
+                    items.append(it)
+                else:
+                    items.insert(0, it)
+                need(len(j) == 2 and int(j[1], 16) == len(items), "op %d: avl_count %s after re-insertion of an unlinked node, the sequence has %d items" % (n, j[1:], len(items)))
     tail = outs[len(ops):]
     freed += len(items)
     need(tail and tail[0][0] == ["Z", "%x" % (freed if withfree else 0)], "freeitem was called %s times, %d items left the tree" % (tail[0][0][1:] if tail else "?", freed))
@@ -1071,6 +1126,52 @@ def gen_avl_cycle(rng, mode, withfree, top, order):
     return mk("avl", [mode, withfree], ops)
 
 
+def gen_avl_rekey(rng, mode, top):
+    """the use the header documents for avl_unlink_node: unlink a node, change its key, avl_insert_node the SAME object again -
+    for nodes that are the root (median key), inner nodes and leaves; self-check after every re-insertion"""
+    step = 4 if mode == 2 else 1
+    present = []
+    ops = []
+    tag = 0
+    keys = list(range(1, top + 1))
+    rng.shuffle(keys)
+    for k in keys:
+        tag += 1
+        ops.append(("i", step * k, tag))
+        present.append(step * k)
+    ops += [("c",), ("f",)]
+    nd = 0
+    nxt = step * (top + 1)
+    for rnd in range(3 * top):
+        present.sort()
+        r = rng.random()
+        idx = len(present) // 2 if r < 0.45 else (0 if r < 0.55 else (len(present) - 1 if r < 0.65 else rng.randrange(len(present))))
+        k = present.pop(idx)
+        ops.append(("U", k))
+        nd += 1
+        if rng.random() < 0.1:
+            ops.append(("U", k))                                       # already unlinked
+        tag += 1
+        r = rng.random()
+        if r < 0.15 and present:
+            ops.append(("R", 0, rng.choice(present), tag, rng.randrange(2)))     # the new key is present: refused, the object stays
+            tag += 1
+        newk = nxt if r < 0.5 else (step * rng.randrange(1, top + 1))
+        nxt += step
+        if newk in present:
+            newk = nxt
+            nxt += step
+        ops.append(("R", nd - 1 if rng.random() < 0.5 else 0, newk, tag, rng.randrange(2)))
+        present.append(newk)
+        nd -= 1
+        ops.append(("c",))
+        if rnd % 5 == 0:
+            avl_queries(rng, ops, present, 2, nxt + 3)
+            ops += [("f",), ("b",)]
+    ops += [("c",), ("A",), ("t",), ("y",), ("c",), ("i", 5, tag + 1), ("i", 3, tag + 2), ("c",), ("f",)]
+    return mk("avl", [mode, rng.randrange(2)], ops)
+
+
 def gen_avl_random(rng, nops):
     mode = rng.randrange(4)
     kr = rng.choice([6, 16, 40, 200, 2000])
@@ -1080,8 +1181,12 @@ def gen_avl_random(rng, nops):
         k = rng.randrange(kr)
         if r < 0.34:
             ops.append(("i", k, t + 1))
-        elif r < 0.56:
+        elif r < 0.50:
             ops.append(("d", k))
+        elif r < 0.56:
+            ops.append(("U", k))
+        elif r < 0.61:
+            ops.append(("R", rng.randrange(3), k, t + 1, rng.randrange(2)))
         elif r < 0.64:
             ops.append(("s", k))
         elif r < 0.70:
@@ -1096,8 +1201,10 @@ def gen_avl_random(rng, nops):
             ops.append((rng.choice("fA"),))
         elif r < 0.96:
             ops.append((rng.choice("tb"),))
-        elif r < 0.99:
+        elif r < 0.985:
             ops.append(("e",))
+        elif r < 0.993:
+            ops.append(("y",))
         else:
             ops.append(("z",))
     ops += [("c",), ("f",), ("t",), ("b",)]
@@ -1124,7 +1231,7 @@ def gen_aseq(rng, nops, style="rand", top=0):
     def ins(u=None, o=None):
         nonlocal n
         tag[0] += 1
-        ops.append((o or rng.choice("PN"), pos("i") if u is None else u, rng.randrange(1 << 16), tag[0]))
+        ops.append((o or rng.choice("PN"), pos("i") if u is None else u, rng.randrange(1 << 16), tag[0], int(rng.random() < 0.3)))
         n += 1
 
     def dele(u=None):
@@ -1133,10 +1240,57 @@ def gen_aseq(rng, nops, style="rand", top=0):
         ops.append(("D", u))
         if u < n:
             n -= 1
+    nd = 0             # node objects kept by the caller
+
+    def unlink(u=None):
+        nonlocal n, nd
+        u = pos("d") if u is None else u
+        ops.append(("K", u))
+        if u < n:
+            n -= 1
+            nd += 1
+
+    def relink(u=None):
+        nonlocal n, nd
+        tag[0] += 1
+        ops.append((rng.choice("QW"), pos("i") if u is None else u, rng.randrange(nd + 1) if rng.random() < 0.05 else rng.randrange(max(nd, 1)),
+                    rng.randrange(1 << 16), tag[0], rng.randrange(2)))
+        if ops[-1][2] < nd:
+            nd -= 1
+            n += 1
+    if style == "rekey":
+        # grow, then again and again: unlink a node (root region n // 2, inner nodes, leaves at the ends, random), change its
+        # item, link the SAME object in somewhere else; self-check after every re-insertion
+        for k in range(top):
+            ins(rng.choice([0, n, n // 2, None]), None)
+        ops += [("c",), ("f",)]
+        for k in range(3 * top):
+            r = rng.random()
+            unlink(n // 2 if r < 0.4 else (n // 4 if r < 0.5 else (3 * n // 4 if r < 0.6 else (0 if r < 0.7 else (n - 1 if r < 0.8 else None)))))
+            if rng.random() < 0.3:
+                unlink()
+            while nd > 0 and rng.random() < 0.85:
+                relink()
+                ops.append(("c",))
+            if k % 7 == 0:
+                ops += [("f",), ("b",), ("a", n // 2), ("x", n // 2)]
+        while nd > 0:
+            relink()
+        ops += [("c",), ("f",), ("t",), ("b",), ("y",), ("c",)]
+        for k in range(5):
+            ins()
+        return mk("aseq", [rng.randrange(2)], ops + [("c",), ("f",)])
     if style == "rand":
         while len(ops) < nops:
             r = rng.random()
-            if r < 0.45:
+            if r < 0.07:
+                unlink()
+            elif r < 0.14:
+                relink()
+            elif r < 0.15:
+                ops.append(("y",))
+                n = 0
+            elif r < 0.45:
                 ins()
             elif r < 0.70:
                 dele()
@@ -1259,6 +1413,10 @@ def gen_cases(ctx):
         cases.append(gen_avl_cycle(rng, mode, rng.randrange(2), top, order))
     for _ in range(250 if q else 6000):
         cases.append(gen_avl_random(rng, rng.choice([15, 50, 150, 500])))
+    for mode, top in [(0, 3), (3, 7), (0, 40), (1, 15), (2, 25), (0, 300)] + ([] if q else [(3, 2000), (1, 500), (2, 300)]):
+        cases.append(gen_avl_rekey(rng, mode, top))
+    for top in [3, 4, 7, 20, 100, 400] + ([] if q else [2500, 1000]):
+        cases.append(gen_aseq(rng, 0, "rekey", top))
     # AVL tree as a sequence (positions chosen by the caller)
     for style, top in [("front", 600), ("back", 600), ("mid", 700), ("rand", 1500), ("front", 33), ("back", 64), ("mid", 9)] + (
             [] if q else [("rand", 12000), ("front", 5000), ("mid", 6000)]):
@@ -1493,8 +1651,9 @@ def run(ctx):
 
 
 UNPROVED = ["sc_hash_array_rip is run (memory balance, ripped contents) but has no model operation of its own",
-            "avl_fixup_node and avl_insert_node with a caller-owned node: not modelled (avl_insert_before / _after / _top with a node chosen by the "
-            "caller and avl_delete_node on a node are modelled by AvlSeqModel.v, sequence semantics)",
+            "avl_fixup_node: not modelled (avl_insert_before / _after / _top with a node chosen by the caller, avl_delete_node on a node: "
+            "AvlSeqModel.v; avl_unlink_node and re-insertion of the same node object by avl_insert_node / _before / _after, caller-filled nodes: "
+            "AvlRelinkModel.v)",
             "T1: the pointer rotations of avl_rebalance / avl_unlink_node are not sliced (c2g has no heap: an access path through a pointer that is "
             "reassigned inside the slice would be mistranslated); tied by the correspondence run (tree root and height compared) and the structural "
             "self-check; not sliced either: the loops of sc_hash_lookup / insert_unique / remove / foreach / truncate / unlink, sc_keyvalue_set_* "
